@@ -11,8 +11,10 @@
 //!        gvh_geom eval "<definition>" <lon deg> <lat deg>       (minimal reproductions)
 //!        gvh_geom selftest                                       (the measuring instrument itself)
 //!
-//! One input line = one configuration:
-//!  {"fam","def","shape","ellps","chr","k0","x0","y0","lat0","partner","tol":{..},"obs":[[kind,lon,lat,arg],..]}
+//! One input line = one configuration
+//!  {"fam","def","shape","ellps","chr","k0","x0","y0","lat0","polesing","partner","tol":{..},"obs":[[kind,lon,lat,arg],..]}
+//! or one shape with the ellipsoids it is enumerated on: "ells":[[ellps, partner],..] instead of "def","ellps","partner"
+//! (def = shape + " ellps=" + ellps)
 //!  lon/lat: decimal degrees as text; k0/x0/y0/lat0: decimal text ("" = not applicable)
 //!  kinds:  conf   conformal at the point: h = k, meridian _|_ parallel, orientation preserved
 //!          confr  the same at a seeded random point of the 1 x 1 degree cell whose south-west corner is given
@@ -27,15 +29,21 @@
 //! central differences  f' ~ (-f(+2h) + 8 f(+h) - 8 f(-h) + f(-2h)) / 12h  in f64, separately in
 //! longitude and latitude, and normalised by the parallel radius N cos(lat) and the meridian
 //! radius M, both computed here from (a, f):  N = a / sqrt(1 - e2 sin^2), M = a (1 - e2) / (1 - e2 sin^2)^1.5.
-//! Steps:   h_lat = min(1e-4, 0.005 * colatitude)        (the pole is the nearest singularity of merc / lcc)
+//! Steps:   h_lat = min(1e-4, 0.003 * colatitude)        where the pole is a singular point of the map (merc, webmerc, lcc:
+//!                                                        `polesing`, declared by the specification), else min(1e-4, 0.2 * colatitude)
 //!          h_lon = clamp(1e-4 / cos(lat), 1e-4, 2e-3)   (a constant ~640 m on the ground, capped at 0.11 degrees)
 //! Error budget (relative error of one normalised derivative):
 //!   truncation  ~ (4/5) (h / L)^4, L = distance (radians) to the nearest singularity of the map in that
-//!               direction: L_lat >= colatitude => <= 5e-10; L_lon >= 0.3 (tmerc at 60 degrees from the
-//!               central meridian, laea 30 degrees from the antipode, lcc 1/n) => <= 2e-9 at the cap, 1e-14 elsewhere
+//!               direction: L_lat >= colatitude => <= 7e-11 (x n(n+1)..(n+4)/24 <= 5 for the power law of lcc);
+//!               L_lon >= 0.3 (tmerc at 60 degrees from the central meridian, laea 30 degrees from the
+//!               antipode, lcc 1/n) => <= 2e-9 at the cap (reached only above 87 degrees), 1e-14 elsewhere
 //!   rounding    ~ 1.5 ulp(|X|) / (h D), |X| the magnitude of the projected coordinate (<= 2e7 m with false
 //!               origins), D = a k cos(lat) resp. a k the derivative: <= 1e-10 for a >= 6.3e6 m
-//! so the instrument is good to a few 1e-9; the tolerances of spec/Geometry.tla are 1e-7.
+//!   the operator's own rounding is amplified by 1/h as well: laea's polar aspects compute rho = a sqrt(qp - q) with
+//!               cancellation near their pole, and qs() itself loses digits in proportion to 1/e on nearly spherical
+//!               ellipsoids (asin near +-1 amplifies that by 1/cos(lat)): ~1e-7 in the areal scale at 0.2 degrees from a
+//!               pole for rf = 1e5: the equal-area class is 1e-5
+//! so the instrument is good to a few 1e-9; the conformal tolerances of spec/Geometry.tla are 1e-7.
 //! The meridian arc is a 16-point Gauss-Legendre quadrature of M over 8 panels (nodes by Newton iteration on
 //! the Legendre polynomial), cross-checked in `selftest` against composite Simpson.
 use geodesy::authoring::*;
@@ -140,16 +148,18 @@ fn ell_of(name: &str) -> Result<Ell, String> {
 
 // ---- the Jacobian by finite differences -------------------------------------------------
 
-fn steps(lat: f64) -> (f64, f64) {
+fn steps(lat: f64, polesing: bool) -> (f64, f64) {
     let colat = std::f64::consts::FRAC_PI_2 - lat.abs();
-    let h_lat = (0.005 * colat).min(1e-4);
+    // where the pole is a singular point of the map (merc, webmerc, lcc) the step shrinks with the distance to it;
+    // elsewhere it only has to keep the stencil on this side of the pole
+    let h_lat = if polesing { (0.003 * colat).min(1e-4) } else { (0.2 * colat).min(1e-4) };
     let h_lon = (1e-4 / lat.cos().max(1e-9)).clamp(1e-4, 2e-3);
     (h_lon, h_lat)
 }
 
 /// the nine points of the stencil: centre, lon -2h -h +h +2h, lat -2h -h +h +2h
-fn stencil(lon: f64, lat: f64) -> Vec<Coor4D> {
-    let (hl, hp) = steps(lat);
+fn stencil(lon: f64, lat: f64, polesing: bool) -> Vec<Coor4D> {
+    let (hl, hp) = steps(lat, polesing);
     let mut v = vec![Coor4D([lon, lat, 0.0, 0.0])];
     for m in [-2.0, -1.0, 1.0, 2.0] {
         v.push(Coor4D([lon + m * hl, lat, 0.0, 0.0]));
@@ -179,11 +189,11 @@ fn d4(f: &[f64; 4], h: f64) -> f64 {
 }
 
 /// `img`: images of the nine stencil points
-fn jacobian(ell: &Ell, lat: f64, img: &[Coor4D]) -> Option<Jac> {
+fn jacobian(ell: &Ell, lat: f64, polesing: bool, img: &[Coor4D]) -> Option<Jac> {
     if img.iter().take(9).any(|p| !p[0].is_finite() || !p[1].is_finite()) {
         return None;
     }
-    let (hl, hp) = steps(lat);
+    let (hl, hp) = steps(lat, polesing);
     let col = |o: usize, c: usize| [img[o][c], img[o + 1][c], img[o + 2][c], img[o + 3][c]];
     let (x_l, y_l) = (d4(&col(1, 0), hl), d4(&col(1, 1), hl));
     let (x_p, y_p) = (d4(&col(5, 0), hp), d4(&col(5, 1), hp));
@@ -327,6 +337,7 @@ fn configuration(v: &Value, seed: u64, gl: &[(f64, f64)], o: &mut Out) {
     let (fam, def, ellps, chr, partner) = (g("fam"), g("def"), g("ellps"), g("chr"), g("partner"));
     let obs = v["obs"].as_array().cloned().unwrap_or_default();
     let nobs = obs.len();
+    let polesing = v["polesing"].as_bool().unwrap_or(true);
     o.total += nobs;
     {
         let e = o.per_fam.entry(fam.clone()).or_default();
@@ -344,6 +355,8 @@ fn configuration(v: &Value, seed: u64, gl: &[(f64, f64)], o: &mut Out) {
         Ok(e) => e,
         Err(m) => return whole(o, if m.starts_with("panic") { "panic" } else { "opfail" }, format!("ellipsoid {ellps}: {m}")),
     };
+    // (a hang of the code under test is recognised by the driver from the last configuration announced)
+    println!("at {def}");
     let mut ctx = Minimal::default();
     o.evals += 1;
     let op = match op_guarded(&mut ctx, &def) {
@@ -375,7 +388,7 @@ fn configuration(v: &Value, seed: u64, gl: &[(f64, f64)], o: &mut Out) {
         }
         let (lon, lat) = (lon_deg.to_radians(), lat_deg.to_radians());
         let pts = match kind.as_str() {
-            "conf" | "confr" | "area" | "arear" | "scale" | "fac" => stencil(lon, lat),
+            "conf" | "confr" | "area" | "arear" | "scale" | "fac" => stencil(lon, lat, polesing),
             _ => vec![Coor4D([lon, lat, 0.0, 0.0])],
         };
         tasks.push(Task { kind, arg, lon_deg, lat_deg, at: batch.len(), n: pts.len(), cell });
@@ -434,7 +447,7 @@ fn configuration(v: &Value, seed: u64, gl: &[(f64, f64)], o: &mut Out) {
             "conf" | "confr" | "area" | "arear" | "scale" | "fac" => {
                 // webmerc is the Mercator projection of the SPHERE of radius a: its character is judged on that sphere
                 let on = if chr == "sphmerc" { Ell::new(ell.a, 0.0) } else { ell };
-                let Some(j) = jacobian(&on, lat, &img) else {
+                let Some(j) = jacobian(&on, lat, polesing, &img) else {
                     o.fail(v, &t.kind, "nan", f64::NAN, 0.0, base(json!({"image":show(&img[0])})));
                     continue;
                 };
@@ -500,7 +513,7 @@ fn configuration(v: &Value, seed: u64, gl: &[(f64, f64)], o: &mut Out) {
                             Ok(Err(e)) => o.fail(v, "fac", "opfail", f64::NAN, 0.0, base(json!({"msg":format!("{e:?}")}))),
                             Ok(Ok(f)) => {
                                 // (the finite-difference quantities on the ellipsoid itself, also for webmerc)
-                                let je = jacobian(&ell, lat, &img).unwrap();
+                                let je = jacobian(&ell, lat, polesing, &img).unwrap();
                                 let dev = ((f.meridional_scale - je.h).abs() / je.h).max((f.parallel_scale - je.k).abs() / je.k).max((f.areal_scale - je.det).abs() / je.det.abs());
                                 if !(dev <= tf) {
                                     o.fail(v, "fac", "factors", dev, tf, base(json!({"library":{"h":f.meridional_scale,"k":f.parallel_scale,"s":f.areal_scale},
@@ -590,8 +603,24 @@ fn replay(input: &str, output: &str, seed: u64) -> i32 {
             continue;
         }
         let v: Value = serde_json::from_str(&line).expect("bad json");
-        spec_ellps.insert(v["ellps"].as_str().unwrap_or("").to_string());
-        configuration(&v, seed, &gl, &mut o);
+        // one configuration, or one shape with the ellipsoids it is enumerated on: "ells":[[ellps, partner],..]
+        match v["ells"].as_array() {
+            None => {
+                spec_ellps.insert(v["ellps"].as_str().unwrap_or("").to_string());
+                configuration(&v, seed, &gl, &mut o);
+            }
+            Some(ells) => {
+                for e in ells {
+                    let (ellps, partner) = (e[0].as_str().unwrap_or(""), e[1].as_str().unwrap_or(""));
+                    let mut c = v.clone();
+                    c["ellps"] = json!(ellps);
+                    c["partner"] = json!(partner);
+                    c["def"] = json!(format!("{} ellps={}", v["shape"].as_str().unwrap_or(""), ellps));
+                    spec_ellps.insert(ellps.to_string());
+                    configuration(&c, seed, &gl, &mut o);
+                }
+            }
+        }
     }
     for ((fam, shape, kind, what), gr) in o.groups.iter() {
         writeln!(o.w, "{}", json!({"group":true,"fam":fam,"shape":shape,"kind":kind,"what":what,"failing":gr.fails,"max":gr.max,
@@ -630,13 +659,14 @@ fn eval(def: &str, lon_deg: f64, lat_deg: f64) -> i32 {
         }
     };
     let (lon, lat) = (lon_deg.to_radians(), lat_deg.to_radians());
-    let mut img = stencil(lon, lat);
+    let polesing = ["merc", "webmerc", "lcc"].contains(&def.split_whitespace().next().unwrap_or(""));
+    let mut img = stencil(lon, lat, polesing);
     let r = apply_guarded(&ctx, op, &mut img);
     println!("{def}\n  ellipsoid a = {} f = {} (1/{})", ell.a, ell.f, 1.0 / ell.f);
-    println!("  point lon = {lon_deg:?} lat = {lat_deg:?} degrees; steps (lon, lat) = {:?} rad; apply -> {r:?}", steps(lat));
+    println!("  point lon = {lon_deg:?} lat = {lat_deg:?} degrees; steps (lon, lat) = {:?} rad; apply -> {r:?}", steps(lat, polesing));
     println!("  image = ({:?}, {:?})", img[0][0], img[0][1]);
     println!("  M = {:?}  N cos(lat) = {:?}", ell.m(lat), ell.n(lat) * lat.cos());
-    match jacobian(&ell, lat, &img) {
+    match jacobian(&ell, lat, polesing, &img) {
         None => println!("  some stencil point has no finite image: {:?}", img.iter().map(|p| (p[0], p[1])).collect::<Vec<_>>()),
         Some(j) => {
             println!("  meridional scale h = {:?}\n  parallel scale   k = {:?}\n  |h-k|/max = {:e}", j.h, j.k, (j.h - j.k).abs() / j.h.max(j.k));
@@ -680,12 +710,12 @@ fn selftest() -> i32 {
     let mut worst = (0.0f64, 0.0f64);
     for lat_deg in [-89.8f64, -60.0, 0.0, 33.3, 85.0, 89.0, 89.8] {
         let lat = lat_deg.to_radians();
-        let merc: Vec<Coor4D> = stencil(0.3, lat).iter().map(|p| Coor4D([e.a * p[0] + 5e5, e.a * (std::f64::consts::FRAC_PI_4 + p[1] / 2.0).tan().ln() + 1e7, 0., 0.])).collect();
-        let j = jacobian(&e, lat, &merc).unwrap();
+        let merc: Vec<Coor4D> = stencil(0.3, lat, true).iter().map(|p| Coor4D([e.a * p[0] + 5e5, e.a * (std::f64::consts::FRAC_PI_4 + p[1] / 2.0).tan().ln() + 1e7, 0., 0.])).collect();
+        let j = jacobian(&e, lat, true, &merc).unwrap();
         let sec = 1.0 / lat.cos();
         worst.0 = worst.0.max((j.h - sec).abs() / sec).max((j.k - sec).abs() / sec).max(j.cos.abs());
-        let cea: Vec<Coor4D> = stencil(0.3, lat).iter().map(|p| Coor4D([e.a * p[0], e.a * p[1].sin(), 0., 0.])).collect();
-        let j = jacobian(&e, lat, &cea).unwrap();
+        let cea: Vec<Coor4D> = stencil(0.3, lat, false).iter().map(|p| Coor4D([e.a * p[0], e.a * p[1].sin(), 0., 0.])).collect();
+        let j = jacobian(&e, lat, false, &cea).unwrap();
         worst.1 = worst.1.max((j.det - 1.0).abs());
     }
     println!("instrument: spherical Mercator |h,k - sec|/sec, |cos| <= {:e}; cylindrical equal-area |det - 1| <= {:e}", worst.0, worst.1);
